@@ -25,6 +25,12 @@ def sampleDelay (DM f r rate : Rat) : Rat := timeDelay DM f r * rate
 /-- dedispersion phase in cycles at absolute frequency `f`: `K·DM·f·(1/ref − 1/f)²` -/
 def phaseTurns (DM r f : Rat) : Rat := K * DM * f * (1 / r - 1 / f) ^ 2
 
+/-- the same with the reference given by its reciprocal `ir = 1/ref` (`ir = 0`: the customary
+infinite reference frequency, `ref_freq = inf`) -/
+def phaseTurnsInv (DM ir f : Rat) : Rat := K * DM * f * (ir - 1 / f) ^ 2
+
+def timeDelayInv (DM f ir : Rat) : Rat := K * DM * (1 / f ^ 2 - ir ^ 2)
+
 /-- `np.round` (round half to even) on an exact rational -/
 def roundHalfEven (q : Rat) : Int :=
   let f := q.floor
